@@ -227,7 +227,18 @@ fn big_case() -> BoxedStrategy<DocCase> {
                 } else {
                     text.extend(rep);
                 }
-                doc_case_from_text(format!("big:{family}"), "cover-alphabet+repeats".to_string(), text)
+                doc_case_from_text(format!("big:{family}"), "cover-alphabet+repeats".to_string(), text).prop_map(|mut c| {
+                    // Keep the cost of one case bounded: every reported position costs up to 2^6
+                    // psi steps and every needle symbol one backward-search step.
+                    c.needles.retain(|nd| !nd.syms.is_empty());
+                    for nd in c.needles.iter_mut() {
+                        if nd.syms.len() > 400 {
+                            nd.syms.truncate(400);
+                            nd.kind = format!("{}(first 400 symbols)", nd.kind);
+                        }
+                    }
+                    c
+                })
             })
         })
         .boxed()
@@ -258,7 +269,6 @@ impl Property for BigAlphabets {
     fn run(&self, _: &Ctx, mc: &MixCase) -> Outcome {
         let mut o = Outcome::pass();
         let c = &mc.doc;
-        let t0 = std::time::Instant::now();
         let valid = boundaries_valid(c.text.len(), &c.boundaries);
         if !valid {
             o.label("skipped:invalid-input");
@@ -268,7 +278,6 @@ impl Property for BigAlphabets {
         let expect: Vec<Vec<usize>> = c.needles.iter().map(|nd| m.search(&nd.syms)).collect();
         describe(c, &expect, valid, &mut o);
         let distinct = distinct_symbols(&c.text);
-        crate::tlog!("TIMING model+describe {:?} n={} recs={}", t0.elapsed(), c.text.len(), c.boundaries.len());
         o.label(big_alpha_class(distinct.len()));
         o.label(format!("symbol-width:{}", if distinct.len() + 1 <= 65_536 { "u16" } else { "u32" }));
         o.nontrivial = c.boundaries.len() >= 2 && expect.iter().any(|e| !e.is_empty());
@@ -287,22 +296,10 @@ impl Property for BigAlphabets {
         if o.failed() {
             return o;
         }
-        crate::tlog!("TIMING compressed {:?}", t0.elapsed());
         drop(buf);
         let mix = sel(mc.mix.0, OTHER_MIXES);
         o.label(format!("mix:{}", MIXES[mix]));
         run_mix(mix, 0, c, &m, &expect, &mut o);
-        crate::tlog!("TIMING mix {} {:?}", MIXES[mix], t0.elapsed());
         o
     }
-}
-
-#[macro_export]
-macro_rules! tlog {
-    ($($a:tt)*) => {{
-        use std::io::Write;
-        if let Ok(mut f) = std::fs::OpenOptions::new().create(true).append(true).open("/tmp/ext-C19-timing.log") {
-            let _ = writeln!(f, $($a)*);
-        }
-    }};
 }
